@@ -49,7 +49,7 @@ class G:
             return v
         if d >= 2 or r.random() < 0.35:
             return r.choice(INTS + ["(" + n + ")" for n in NEGS])
-        k = r.randrange(7)
+        k = r.randrange(8)
         a, b = self.int_e(d + 1), self.int_e(d + 1)
         if k < 4:
             return f"({a} {'+-*'[k % 3]} {b})"
@@ -57,7 +57,9 @@ class G:
             return f"len({r.choice(self.vars['list'])})"
         if k == 5 and self.funcs:
             return f"{r.choice(self.funcs)}({a})"
-        return f"({a} // {r.choice(['2', '3'])})"
+        if k == 6:
+            return f"({a} % {r.choice(['2', '3', '(-3)', '(-2)', '7'])})"
+        return f"({a} // {r.choice(['2', '3', '(-2)'])})"
 
     def list_e(self, d=0):
         r = self.r
@@ -74,7 +76,7 @@ class G:
         if k == 4:
             return f"{v}.reversed()"
         if k == 5:
-            return f"list(map((x_ -> x_ + {r.choice(INTS)}), {v}))"
+            return f"list(map((x_ -> x_ {r.choice(['+', '-', '*', '%', '//'])} {r.choice(INTS[1:] + ['(-2)', '(-3)'])}), {v}))"
         if k == 6:
             return f"({v}.push({self.int_e(1)}) + [{self.int_e(1)}])"
         if k == 7:
